@@ -52,7 +52,11 @@ class H(S.Hooks):
                 self.nontrivial = True
             after = W.describe(live.m)
             if after != self.desc:
-                out.fail("%s raised (%s) but changed the model: %s" % (op[0], result, _diff(self.desc, after)), hist)
+                # an operation that trips over a reference to a deleted object half-way is the
+                # recorded dangling-reference finding (C13-deleted-object-in-formula-globals)
+                key = "C11-dangling-reference" if result == "err Deleted" else None
+                out.fail("%s raised (%s) but changed the model: %s" % (op[0], result, _diff(self.desc, after)), hist,
+                         key=key)
             return
         defs = W.definitions(live.m)
         py = W.python_c3(defs)
